@@ -145,6 +145,15 @@ def penalty_combinators(kind, n):
                 obs.append(('not-zero-elsewhere/%s' % pt, Iff(eq(out, 0), Not(accepted_interior))))
             pf = K.not_(cond)          # a raw condition: equality reading
             obs.append(('not-raw-condition', Iff(gt(pf(x), 0), eq(v, 0))))
+            # raw condition with an explicitly requested penalty type; typed member with the type restated
+            for pt in ('linear_inequality', 'quadratic_inequality', 'uniform_inequality', 'linear_equality', 'quadratic_equality'):
+                interior = lt(v, 0) if pt.endswith('_inequality') else eq(v, 0)
+                kw = dict(k=7.0) if pt.startswith('uniform') else {}
+                out = K.not_(cond, ptype=getattr(mp, pt), **kw)(x)
+                obs.append(('not-raw-condition-explicit-ptype/%s' % pt, Iff(gt(out, 0), interior)))
+                member = getattr(mp, pt)(cond, **kw)(lambda z: 0.0)
+                out2 = K.not_(member, ptype=getattr(mp, pt), **kw)(x)
+                obs.append(('not-typed-member-restated-ptype/%s' % pt, Iff(gt(out2, 0), interior)))
         return obs
     return h
 
